@@ -206,7 +206,7 @@ func (p *Path) replaceWindow(o *Obj, lo, n *Lin, repl []Seg) bool {
 	return true
 }
 
-func (e *Engine) slice(p *Path, fr *frame, x *ssa.Slice) Value {
+func (e *Engine) slice(p *Path, fr *Frame, x *ssa.Slice) Value {
 	base := e.operand(p, fr, x.X)
 	var lo, hi *Lin
 	if x.Low != nil {
@@ -271,7 +271,7 @@ func (e *Engine) slice(p *Path, fr *frame, x *ssa.Slice) Value {
 	return &TopV{"slice"}
 }
 
-func (e *Engine) makeSlice(p *Path, fr *frame, x *ssa.MakeSlice) Value {
+func (e *Engine) makeSlice(p *Path, fr *Frame, x *ssa.MakeSlice) Value {
 	n, _ := e.operand(p, fr, x.Len).(*Int)
 	if n == nil || n.Lin == nil {
 		e.boundUnknown(p, fr, x, "make length is not a linear expression")
